@@ -272,8 +272,15 @@ func (u *Unmarshaler) fillSliceWithDefault(fieldType reflect.Type, value reflect
 	defaultValue, fullName string) error {
 	baseFieldType := Deref(Deref(fieldType).Elem())
 	baseFieldKind := baseFieldType.Kind()
+	// string elements are parsed differently, they must not share cache entries
+	// with the JSON-decoded elements of the other kinds
+	cacheKey := defaultValue
+	if baseFieldKind == reflect.String {
+		cacheKey = "string:" + defaultValue
+	}
+
 	defaultCacheLock.Lock()
-	slice, ok := defaultCache[defaultValue]
+	slice, ok := defaultCache[cacheKey]
 	defaultCacheLock.Unlock()
 	if !ok {
 		if baseFieldKind == reflect.String {
@@ -283,7 +290,7 @@ func (u *Unmarshaler) fillSliceWithDefault(fieldType reflect.Type, value reflect
 		}
 
 		defaultCacheLock.Lock()
-		defaultCache[defaultValue] = slice
+		defaultCache[cacheKey] = slice
 		defaultCacheLock.Unlock()
 	}
 
